@@ -2,7 +2,7 @@
    Statements only; proofs are in Proofs/ResetProofs.v. *)
 From Coq Require Import List NArith ZArith Bool.
 From Abasic Require Import Model.Bytes Model.Num Model.Token Model.Data Model.Lexer Gen.Tables
-     Model.State Model.Eval Model.Interp Proofs.Monad Proofs.Frames Proofs.StoreProofs Proofs.ResetProofs.
+     Model.State Model.Eval Model.Interp Proofs.Monad Proofs.Frames Proofs.StoreProofs Proofs.ResetProofs Proofs.EditProbes.
 Import ListNotations.
 
 (* Any idle state whatsoever (at a breakpoint, inside loops and subroutines,
@@ -45,10 +45,35 @@ Theorem C11_rejected_error : forall fuel line s,
   exists e, start_evaluating fuel line s = (Err (ESyntaxTok e) (Some imm0), imm_reset [] s).
 Proof. exact rejected_edit_state. Qed.
 
-(* RETURN / NEXT / FN-call / READ probes after an edit follow from the empty
-   stack / loop stack / function table / data cursor by the definitions of
-   return_to_last_gosub, end_loop, user_function_call and next_data_element;
-   they are exercised by the C11 oracle on the implementation. *)
+(* The other probes, after any successful edit from any idle state
+   (Proofs/EditProbes.v).  An immediate line is any text that is no command,
+   has no line number and tokenizes ([imm_line]):
+   - any immediate line starting with RETURN fails with RETURN WITHOUT GOSUB;
+   - any immediate line starting with NEXT w, w holding a number (NEXT A$ is a
+     TYPE MISMATCH whether or not a loop is open), fails with NEXT WITHOUT FOR
+     and leaves the variables alone;
+   - no name is a user-defined function any more (FNA(1) is an array cell again);
+   - the next READ yields what it yields in ANY state holding the same program
+     with no data cursor - a freshly started one included: it starts from the
+     first DATA item of the program as edited. *)
+Theorem C11_probes : forall fuel line s n v,
+  state s = Idle -> edit_of line = Some (n, v) ->
+  let s' := snd (start_evaluating fuel line s) in
+  (forall f l tl, imm_line l (TReturn :: tl) ->
+     exists lc s2, start_evaluating (S f) l s' = (Err EReturnWithoutGosub (Some lc), s2) /\ loc_line lc = None /\ state s2 = Idle)
+  /\ (forall f l w x tl, var_read w s = VNum x -> imm_line l (TNext :: TSymbol w :: tl) ->
+     exists lc s2, start_evaluating (S f) l s' = (Err ENextWithoutFor (Some lc), s2) /\ loc_line lc = None /\ state s2 = Idle
+                   /\ variables s2 = variables s)
+  /\ (forall (rec : M value) name, user_function_call rec name s' = (Ok None, s'))
+  /\ (forall s2, data_it s2 = None -> st_keys s2 = st_keys s' -> st_toks s2 = st_toks s' ->
+        fst (next_data_element s') = fst (next_data_element s2)).
+Proof. exact probes_after_edit. Qed.
+
+(* non-vacuity: the probe lines are immediate lines *)
+Example C11_probe_lines :
+  imm_line (bs "RETURN") [TReturn] /\ imm_line (bs "next i") [TNext; TSymbol (bs "I")]
+  /\ imm_line (bs "RETURN : PRINT 1") (TReturn :: [TColon; TPrint; TNumber (f64_of_Z 1)]).
+Proof. repeat split; try (vm_compute; reflexivity); eexists; (split; [vm_compute; reflexivity | reflexivity]). Qed.
 
 (* non-vacuity: an edit at a breakpoint inside FOR + GOSUB with DATA half read *)
 Example C11_example :
@@ -64,3 +89,4 @@ Print Assumptions C11_edit.
 Print Assumptions C11_cont.
 Print Assumptions C11_rejected.
 Print Assumptions C11_rejected_error.
+Print Assumptions C11_probes.
